@@ -44,7 +44,7 @@ Qed.
 (* ================= the invariant ================= *)
 (* the position a slot currently serves, read off its sequence number and ghost phase *)
 Definition cur (sl : slot) : Z :=
-  match ph sl with Free | Claimed _ | Written _ => seq sl | Full | Taking _ | Taken _ => seq sl - 1 end.
+  match ph sl with Free | Claimed _ | Written _ => seq sl | Full | Taking _ _ | Taken _ => seq sl - 1 end.
 
 Definition gval (gp : list (Z * Z)) (p : Z) : Z := snd (nth (Z.to_nat p) gp (0, 0)).
 
@@ -55,13 +55,13 @@ Definition slot_ok (n hd tl : Z) (gp : list (Z * Z)) (l : ledger) (i : Z) (sl : 
   | Claimed _ => hd <= cur sl < tl /\ is_live (lget l i) = false
   | Written _ => hd <= cur sl < tl /\ lget l i = Alive /\ val sl = gval gp (cur sl)
   | Full => hd <= cur sl < tl /\ lget l i = Alive /\ val sl = gval gp (cur sl)
-  | Taking _ => cur sl < hd /\ tl <= cur sl + n /\ lget l i = Alive /\ val sl = gval gp (cur sl)
+  | Taking _ moved => cur sl < hd /\ tl <= cur sl + n /\ lget l i = (if moved then MovedFrom else Alive) /\ val sl = gval gp (cur sl)
   | Taken _ => cur sl < hd /\ tl <= cur sl + n /\ is_live (lget l i) = false
   end.
 
 Definition qpos (e : Z * (Z * Z)) : Z := fst (snd e).
 Definition qval (e : Z * (Z * Z)) : Z := snd (snd e).
-Definition taking_or_taken (sl : slot) : Prop := match ph sl with Taking _ | Taken _ => True | _ => False end.
+Definition taking_or_taken (sl : slot) : Prop := match ph sl with Taking _ _ | Taken _ => True | _ => False end.
 
 Definition Glob (s : state) : Prop :=
   2 <= N s /\ 0 <= head s <= tail s /\ tail s <= head s + N s /\
@@ -74,7 +74,7 @@ Definition Glob (s : state) : Prop :=
   l_errs (led s) = [].
 
 Definition owns (t : nat) (sl : slot) : Prop :=
-  match ph sl with Claimed t' | Written t' | Taking t' | Taken t' => t' = t | _ => False end.
+  match ph sl with Claimed t' | Written t' | Taking t' _ | Taken t' => t' = t | _ => False end.
 
 (* what thread t knows at each program point *)
 Definition Loc (s : state) (t : nat) (p : pc) : Prop :=
@@ -90,7 +90,8 @@ Definition Loc (s : state) (t : nat) (p : pc) : Prop :=
   | PPopLoadTail h0 => 0 <= h0 <= head s
   | PPopLoadSeq h0 => 0 <= h0 <= head s
   | PPopCas h0 => 0 <= h0 <= head s /\ h0 + 1 <= seq (S h0)
-  | PPopRead h0 => 0 <= h0 /\ ph (S h0) = Taking t /\ cur (S h0) = h0
+  | PPopRead h0 => 0 <= h0 /\ ph (S h0) = Taking t false /\ cur (S h0) = h0
+  | PPopDestroy h0 v => 0 <= h0 /\ ph (S h0) = Taking t true /\ cur (S h0) = h0 /\ v = gval (gpush s) h0
   | PPopStoreSeq h0 v => 0 <= h0 /\ ph (S h0) = Taken t /\ cur (S h0) = h0 /\ v = gval (gpush s) h0
   | PBLoadSeq vs t0 i => 0 <= t0 <= tail s /\ 0 <= i < zlen vs /\ zlen vs <= n /\
                          forall j, 0 <= j < i -> t0 + j <= seq (S (t0 + j))
@@ -149,6 +150,11 @@ Proof.
   - (* PPopCas *) destruct L as [B S0]. split; [lia|]. eapply Z.le_trans; [exact S0 | apply Ms; apply Z.mod_pos_bound; lia].
   - (* PPopRead *) destruct L as (B & P & C). assert (O : owns t (slots s (h0 mod N s))) by (unfold owns; rewrite P; reflexivity).
     rewrite (KEEP _ O). tauto.
+  - (* PPopDestroy *) destruct L as (B & P & C & V). assert (O : owns t (slots s (h0 mod N s))) by (unfold owns; rewrite P; reflexivity).
+    rewrite (KEEP _ O). split; [exact B|]. split; [exact P|]. split; [exact C|].
+    unfold gval. rewrite NTH; [exact V|].
+    assert (Hm : 0 <= h0 mod N s < N s) by (apply Z.mod_pos_bound; lia).
+    specialize (Hsl _ Hm). destruct Hsl as (_ & _ & Hp). rewrite C, P in Hp. lia.
   - (* PPopStoreSeq *) destruct L as (B & P & C & V). assert (O : owns t (slots s (h0 mod N s))) by (unfold owns; rewrite P; reflexivity).
     rewrite (KEEP _ O). split; [exact B|]. split; [exact P|]. split; [exact C|].
     unfold gval. rewrite NTH; [exact V|].
@@ -402,9 +408,9 @@ Qed.
 Lemma glob_take s t ths' :
   Glob s -> head s + 1 <= seq (slots s (head s mod N s)) ->
   let j := head s mod N s in
-  let sl' := fupd (slots s) j (with_ph (slots s j) (Taking t)) in
+  let sl' := fupd (slots s) j (with_ph (slots s j) (Taking t false)) in
   let s' := ST (N s) (head s + 1) (tail s) sl' (led s) ths' (gpush s) (gpopped s) in
-  Glob s' /\ Frame s s' t /\ ph (sl' j) = Taking t /\ cur (sl' j) = head s.
+  Glob s' /\ Frame s s' t /\ ph (sl' j) = Taking t false /\ cur (sl' j) = head s.
 Proof.
   intros Gs Hs j sl' s'. pose proof Gs as (Hn & Hht & Hb & Hlen & Hsl & Q1 & Q2 & Q3 & Ok).
   destruct (take_full s Gs Hs) as [P C]. fold j in P, C.
@@ -447,17 +453,18 @@ Proof.
   - apply IH; [exact Nl | intros H; apply NI; right; exact H].
 Qed.
 
-(* ---- T5: move-out + destructor of a slot claimed by a pop ---- *)
-Lemma glob_read s t h0 ths' :
-  Glob s -> 0 <= h0 -> ph (slots s (h0 mod N s)) = Taking t -> cur (slots s (h0 mod N s)) = h0 ->
+(* ---- T5a: move-out of the payload of a slot claimed by a pop ---- *)
+Lemma glob_move s t h0 ths' :
+  Glob s -> 0 <= h0 -> ph (slots s (h0 mod N s)) = Taking t false -> cur (slots s (h0 mod N s)) = h0 ->
   let j := h0 mod N s in
-  let sl' := fupd (slots s) j (with_ph (slots s j) (Taken t)) in
-  let s' := ST (N s) (head s) (tail s) sl' (destroy j (move_from j (led s))) ths' (gpush s) (gpopped s) in
-  Glob s' /\ Frame s s' t /\ ph (sl' j) = Taken t /\ cur (sl' j) = h0 /\ val (slots s j) = gval (gpush s) h0.
+  let sl' := fupd (slots s) j (with_ph (slots s j) (Taking t true)) in
+  let s' := ST (N s) (head s) (tail s) sl' (move_from j (led s)) ths' (gpush s) (gpopped s) in
+  Glob s' /\ Frame s s' t /\ ph (sl' j) = Taking t true /\ cur (sl' j) = h0 /\ val (slots s j) = gval (gpush s) h0.
 Proof.
   intros Gs H0 P C j sl' s'. pose proof Gs as (Hn & Hht & Hb & Hlen & Hsl & Q1 & Q2 & Q3 & Ok).
   assert (Hj : 0 <= j < N s) by (apply mod_idx; exact Hn).
   pose proof (Hsl j Hj) as (Cm & C0 & Hp). fold j in P, C. rewrite P in Hp. destruct Hp as (Hp1 & Hp2 & Al & Vl).
+  assert (Lv : is_live (lget (led s) j) = true) by (rewrite Al; reflexivity).
   assert (CJ : cur (sl' j) = h0). { unfold sl'. rewrite fupd_same. unfold cur in *. cbn. rewrite P in C. exact C. }
   assert (CURS : forall i, cur (sl' i) = cur (slots s i)).
   { intros i. destruct (Z.eq_dec i j) as [->|D]; [rewrite CJ, C; reflexivity | unfold sl'; rewrite fupd_other by exact D; reflexivity]. }
@@ -467,15 +474,16 @@ Proof.
     split; [|split; [|split; [exact Q2|split]]].
     + intros i Hi. destruct (Z.eq_dec i j) as [->|D].
       * unfold slot_ok. rewrite CJ. unfold sl'. rewrite fupd_same. cbn [with_ph ph val].
-        split; [rewrite <- C; exact Cm|]. split; [exact H0|]. rewrite C in Hp1, Hp2.
-        split; [exact Hp1|]. split; [exact Hp2|]. rewrite C35Proofs.take_lget by exact Al. rewrite Z.eqb_refl. reflexivity.
+        split; [rewrite <- C; exact Cm|]. split; [exact H0|]. rewrite C in Hp1, Hp2, Vl.
+        split; [exact Hp1|]. split; [exact Hp2|]. split; [|exact Vl].
+        rewrite lget_move_from_live by exact Lv. rewrite Z.eqb_refl. reflexivity.
       * unfold sl'. rewrite fupd_other by exact D. apply (slot_ok_led _ _ _ _ (led s)); [|apply Hsl; exact Hi].
-        rewrite C35Proofs.take_lget by exact Al. destruct (j =? i) eqn:E; [apply Z.eqb_eq in E; congruence | reflexivity].
+        rewrite lget_move_from_live by exact Lv. destruct (j =? i) eqn:E; [apply Z.eqb_eq in E; congruence | reflexivity].
     + intros e He. rewrite CURS. apply Q1. exact He.
     + intros p Hp0. destruct (Q3 p Hp0) as [In1|[Cp Tp]]; [left; exact In1 | right]. rewrite CURS. split; [exact Cp|].
       destruct (Z.eq_dec (p mod N s) j) as [E|D]; [|unfold sl'; rewrite fupd_other by exact D; exact Tp].
       rewrite E. unfold taking_or_taken, sl'. rewrite fupd_same. exact I.
-    + rewrite C35Proofs.take_errs by exact Al. exact Ok.
+    + rewrite errs_move_from_live by exact Lv. exact Ok.
   - unfold Frame, s'. cbn [N head tail slots gpush].
     split; [reflexivity|]. split; [lia|]. split; [lia|]. split; [exists []; rewrite app_nil_r; reflexivity|]. split.
     + intros i Hi. destruct (Z.eq_dec i j) as [->|D]; [unfold sl'; rewrite fupd_same; cbn; lia | unfold sl'; rewrite fupd_other by exact D; lia].
@@ -484,6 +492,46 @@ Proof.
   - unfold sl'. rewrite fupd_same. reflexivity.
   - exact CJ.
   - rewrite C in Vl. exact Vl.
+Qed.
+
+(* ---- T5b: destructor call on the moved-from payload: the slot payload is dead from here on, in particular before the
+   sequence store that hands the slot back (T6 requires the phase Taken) ---- *)
+Lemma glob_destroy s t h0 ths' :
+  Glob s -> 0 <= h0 -> ph (slots s (h0 mod N s)) = Taking t true -> cur (slots s (h0 mod N s)) = h0 ->
+  let j := h0 mod N s in
+  let sl' := fupd (slots s) j (with_ph (slots s j) (Taken t)) in
+  let s' := ST (N s) (head s) (tail s) sl' (destroy j (led s)) ths' (gpush s) (gpopped s) in
+  Glob s' /\ Frame s s' t /\ ph (sl' j) = Taken t /\ cur (sl' j) = h0.
+Proof.
+  intros Gs H0 P C j sl' s'. pose proof Gs as (Hn & Hht & Hb & Hlen & Hsl & Q1 & Q2 & Q3 & Ok).
+  assert (Hj : 0 <= j < N s) by (apply mod_idx; exact Hn).
+  pose proof (Hsl j Hj) as (Cm & C0 & Hp). fold j in P, C. rewrite P in Hp. destruct Hp as (Hp1 & Hp2 & Al & Vl).
+  assert (Lv : is_live (lget (led s) j) = true) by (rewrite Al; reflexivity).
+  assert (CJ : cur (sl' j) = h0). { unfold sl'. rewrite fupd_same. unfold cur in *. cbn. rewrite P in C. exact C. }
+  assert (CURS : forall i, cur (sl' i) = cur (slots s i)).
+  { intros i. destruct (Z.eq_dec i j) as [->|D]; [rewrite CJ, C; reflexivity | unfold sl'; rewrite fupd_other by exact D; reflexivity]. }
+  split; [|split; [|split]].
+  - unfold Glob, s'. cbn [N head tail slots led gpush gpopped].
+    split; [exact Hn|]. split; [exact Hht|]. split; [exact Hb|]. split; [exact Hlen|].
+    split; [|split; [|split; [exact Q2|split]]].
+    + intros i Hi. destruct (Z.eq_dec i j) as [->|D].
+      * unfold slot_ok. rewrite CJ. unfold sl'. rewrite fupd_same. cbn [with_ph ph val].
+        split; [rewrite <- C; exact Cm|]. split; [exact H0|]. rewrite C in Hp1, Hp2.
+        split; [exact Hp1|]. split; [exact Hp2|]. rewrite lget_destroy_live by exact Lv. rewrite Z.eqb_refl. reflexivity.
+      * unfold sl'. rewrite fupd_other by exact D. apply (slot_ok_led _ _ _ _ (led s)); [|apply Hsl; exact Hi].
+        rewrite lget_destroy_live by exact Lv. destruct (j =? i) eqn:E; [apply Z.eqb_eq in E; congruence | reflexivity].
+    + intros e He. rewrite CURS. apply Q1. exact He.
+    + intros p Hp0. destruct (Q3 p Hp0) as [In1|[Cp Tp]]; [left; exact In1 | right]. rewrite CURS. split; [exact Cp|].
+      destruct (Z.eq_dec (p mod N s) j) as [E|D]; [|unfold sl'; rewrite fupd_other by exact D; exact Tp].
+      rewrite E. unfold taking_or_taken, sl'. rewrite fupd_same. exact I.
+    + rewrite errs_destroy_live by exact Lv. exact Ok.
+  - unfold Frame, s'. cbn [N head tail slots gpush].
+    split; [reflexivity|]. split; [lia|]. split; [lia|]. split; [exists []; rewrite app_nil_r; reflexivity|]. split.
+    + intros i Hi. destruct (Z.eq_dec i j) as [->|D]; [unfold sl'; rewrite fupd_same; cbn; lia | unfold sl'; rewrite fupd_other by exact D; lia].
+    + intros i Hi. destruct (Z.eq_dec i j) as [->|D]; [|left; unfold sl'; rewrite fupd_other by exact D; reflexivity].
+      right. right. right. unfold owns. rewrite P. reflexivity.
+  - unfold sl'. rewrite fupd_same. reflexivity.
+  - exact CJ.
 Qed.
 
 (* ---- T6: releasing a taken slot for the next lap ---- *)
@@ -645,9 +693,13 @@ Proof.
       cbn [goto tpc Loc N slots]. split; [lia|]. split; [exact P' | exact C'].
     + apply (inv_pc_only s t th); [exact I0 | exact Nt | apply Loc_next].
   - (* PPopRead *) destruct Lt as (B0 & Pj & Cj). injection E as <- _ _. rewrite rw_mod by exact Npos.
-    destruct (glob_read s t h0 (set_nth (threads s) t (goto th (PPopStoreSeq h0 (val (slots s (h0 mod N s)))))) Gs B0 Pj Cj) as (G' & F' & P' & C' & V').
+    destruct (glob_move s t h0 (set_nth (threads s) t (goto th (PPopDestroy h0 (val (slots s (h0 mod N s)))))) Gs B0 Pj Cj) as (G' & F' & P' & C' & V').
     eapply inv_step_intro; [exact I0 | exact Nt | reflexivity | exact G' | exact F' |].
     cbn [goto tpc Loc N slots gpush]. split; [exact B0|]. split; [exact P'|]. split; [exact C' | exact V'].
+  - (* PPopDestroy *) destruct Lt as (B0 & Pj & Cj & Vj). injection E as <- _ _. rewrite rw_mod by exact Npos.
+    destruct (glob_destroy s t h0 (set_nth (threads s) t (goto th (PPopStoreSeq h0 v))) Gs B0 Pj Cj) as (G' & F' & P' & C').
+    eapply inv_step_intro; [exact I0 | exact Nt | reflexivity | exact G' | exact F' |].
+    cbn [goto tpc Loc N slots gpush]. split; [exact B0|]. split; [exact P'|]. split; [exact C' | exact Vj].
   - (* PPopStoreSeq *) destruct Lt as (B0 & Pj & Cj & Vj). injection E as <- _ _. rewrite rw_mod by exact Npos.
     assert (h0 < head s).
     { destruct (Hsl _ (mod_idx (N s) h0 Hn)) as (_ & _ & Hp). rewrite Pj, Cj in Hp. lia. }
@@ -735,7 +787,7 @@ Qed.
 Definition holds (p : pc) (c : Z) : Prop :=
   match p with
   | PPushWrite _ t0 | PPushStoreSeq _ t0 => c = t0
-  | PPopRead h0 | PPopStoreSeq h0 _ => c = h0
+  | PPopRead h0 | PPopDestroy h0 _ | PPopStoreSeq h0 _ => c = h0
   | PBWrite _ t0 i avail | PBStoreSeq _ t0 i avail => t0 + i <= c < t0 + avail
   | _ => False
   end.
@@ -841,6 +893,10 @@ Proof.
       * intros c H _. rewrite P in H. destruct H.
     + eapply own_same; [exact Os | exact Nt | rewrite P; intros c []].
   - (* PPopRead *) destruct Lt as (B0 & Pj & Cj). injection E as <- _ _. rewrite rw_mod by exact Npos.
+    eapply own_upd1; [exact Gs | exact Os | exact Nt | apply mod_idx; exact Hn | | ].
+    + intros t2 O. unfold owns in O. cbn in O. subst t2. split; [reflexivity|]. cbn. unfold cur in *. cbn. rewrite Pj in Cj. exact Cj.
+    + intros c H _. rewrite P in H. exact H.
+  - (* PPopDestroy *) destruct Lt as (B0 & Pj & Cj & Vj). injection E as <- _ _. rewrite rw_mod by exact Npos.
     eapply own_upd1; [exact Gs | exact Os | exact Nt | apply mod_idx; exact Hn | | ].
     + intros t2 O. unfold owns in O. cbn in O. subst t2. split; [reflexivity|]. cbn. unfold cur in *. cbn. rewrite Pj in Cj. exact Cj.
     + intros c H _. rewrite P in H. exact H.
@@ -1064,7 +1120,7 @@ Qed.
 Theorem quiescent_pop_nonempty_inv s t th :
   Inv2 s -> quiescent s = true -> nth_error (threads s) t = Some th -> tpc th = PPopLoadHead ->
   tail s + 2 * N s < 2 ^ 62 -> head s < tail s ->
-  exists s', solo 6 s t = Some s' /\ head s' = head s + 1 /\ tail s' = tail s /\
+  exists s', solo 7 s t = Some s' /\ head s' = head s + 1 /\ tail s' = tail s /\
              gpopped s' = gpopped s ++ [(Z.of_nat t, (head s, gval (gpush s) (head s)))] /\
              nth_error (threads s') t = Some (advance (prog th) ((r_pop, gval (gpush s) (head s)) :: res th)).
 Proof.
@@ -1097,28 +1153,37 @@ Proof.
   assert (Nt3 : nth_error (threads s3) t = Some th3) by (apply nth_error_set_nth_eq with th2; exact Nt2).
   (* 4: head CAS *)
   set (th4 := goto th3 (PPopRead (head s))).
-  set (sl4 := fupd (slots s) j (with_ph (slots s j) (Taking t))).
+  set (sl4 := fupd (slots s) j (with_ph (slots s j) (Taking t false))).
   set (s4 := ST (N s) (head s + 1) (tail s) sl4 (led s) (set_nth (threads s3) t th4) (gpush s) (gpopped s)).
   assert (E4 : gstep s3 t [] = Some (s4, [], s_pop_head_cas)).
   { unfold gstep, step. rewrite (nowrap_of s3 NW), Nt3. cbn [th3 goto tpc s3 tail N head slots led gpush gpopped].
     rewrite Z.eqb_refl. rewrite rw_mod by lia. rewrite u64_small by lia. reflexivity. }
   rewrite (solo_step _ _ _ _ _ E4).
   assert (Nt4 : nth_error (threads s4) t = Some th4) by (apply nth_error_set_nth_eq with th3; exact Nt3).
-  (* 5: payload read *)
+  (* 5: payload move-out *)
   set (v := gval (gpush s) (head s)).
-  set (th5 := goto th4 (PPopStoreSeq (head s) v)).
-  set (sl5 := fupd sl4 j (with_ph (sl4 j) (Taken t))).
-  set (s5 := ST (N s) (head s + 1) (tail s) sl5 (destroy j (move_from j (led s))) (set_nth (threads s4) t th5) (gpush s) (gpopped s)).
+  set (th5 := goto th4 (PPopDestroy (head s) v)).
+  set (sl5 := fupd sl4 j (with_ph (sl4 j) (Taking t true))).
+  set (s5 := ST (N s) (head s + 1) (tail s) sl5 (move_from j (led s)) (set_nth (threads s4) t th5) (gpush s) (gpopped s)).
   assert (E5 : gstep s4 t [] = Some (s5, [], s_pop_data_read)).
   { unfold gstep, step. rewrite (nowrap_of s4 NW), Nt4. cbn [th4 goto tpc s4 tail N head slots led gpush gpopped].
     rewrite rw_mod by lia. fold j. unfold th5, sl5, v. unfold sl4 at 3. rewrite fupd_same. cbn [with_ph val]. rewrite Vf. reflexivity. }
   rewrite (solo_step _ _ _ _ _ E5).
   assert (Nt5 : nth_error (threads s5) t = Some th5) by (apply nth_error_set_nth_eq with th4; exact Nt4).
-  (* 6: release *)
+  (* 6: payload destructor *)
+  set (th6 := goto th5 (PPopStoreSeq (head s) v)).
+  set (sl6 := fupd sl5 j (with_ph (sl5 j) (Taken t))).
+  set (s6 := ST (N s) (head s + 1) (tail s) sl6 (destroy j (move_from j (led s))) (set_nth (threads s5) t th6) (gpush s) (gpopped s)).
+  assert (E6 : gstep s5 t [] = Some (s6, [], s_pop_data_destroy)).
+  { unfold gstep, step. rewrite (nowrap_of s5 NW), Nt5. cbn [th5 goto tpc s5 tail N head slots led gpush gpopped].
+    rewrite rw_mod by lia. reflexivity. }
+  rewrite (solo_step _ _ _ _ _ E6).
+  assert (Nt6 : nth_error (threads s6) t = Some th6) by (apply nth_error_set_nth_eq with th5; exact Nt5).
+  (* 7: release *)
   eexists. split.
-  - cbn [solo]. unfold gstep, step. rewrite (nowrap_of s5 NW), Nt5. cbn [th5 goto tpc s5 tail N head slots led gpush gpopped]. reflexivity.
+  - cbn [solo]. unfold gstep, step. rewrite (nowrap_of s6 NW), Nt6. cbn [th6 goto tpc s6 tail N head slots led gpush gpopped]. reflexivity.
   - cbn [head tail gpopped threads]. split; [reflexivity|]. split; [reflexivity|]. split; [reflexivity|].
-    apply nth_error_set_nth_eq with th5. exact Nt5.
+    apply nth_error_set_nth_eq with th6. exact Nt6.
 Qed.
 
 (* in a quiescent state try_push on a full buffer fails ... *)
@@ -1312,7 +1377,7 @@ Lemma mpmc_quiescent_pop_iff_nonempty n progs s t th : 2 <= n -> reach gstep (in
                         (set_nth (set_nth (threads s) t (goto th (PPopLoadTail (head s)))) t (advance (prog th) ((r_popfail, 0) :: res th)))
                         (gpush s) (gpopped s))) /\
   (head s < tail s ->
-     exists s', solo 6 s t = Some s' /\ head s' = head s + 1 /\ tail s' = tail s /\
+     exists s', solo 7 s t = Some s' /\ head s' = head s + 1 /\ tail s' = tail s /\
              gpopped s' = gpopped s ++ [(Z.of_nat t, (head s, gval (gpush s) (head s)))] /\
              nth_error (threads s') t = Some (advance (prog th) ((r_pop, gval (gpush s) (head s)) :: res th))).
 Proof.
@@ -1568,7 +1633,7 @@ Proof. intros Hn R Q Nt P NW. apply quiescent_batch_inv; try assumption. exact (
 (* ================= per-thread order of claimed positions ================= *)
 Definition PF (gq : list (Z * (Z * Z))) (t : nat) (p : pc) : Prop :=
   match p with
-  | PPopRead h0 | PPopStoreSeq h0 _ => forall e, In e gq -> fst e = Z.of_nat t -> qpos e < h0
+  | PPopRead h0 | PPopDestroy h0 _ | PPopStoreSeq h0 _ => forall e, In e gq -> fst e = Z.of_nat t -> qpos e < h0
   | _ => True
   end.
 
@@ -1614,7 +1679,7 @@ Proof.
   unfold step in E. destruct (nth_error (threads s) t) as [th|] eqn:Nt; [|discriminate].
   pose proof (H1 t th Nt) as Pt.
   pose proof Gs as (Hn & Hht & Hb & Hlen & Hsl & Q1 & _).
-  destruct (tpc th) as [ | v | v t0 | v t0 | v t0 | v t0 | | h0 | h0 | h0 | h0 | h0 v | vs | vs t0 i | vs t0 a | vs t0 i a | vs t0 i a | ] eqn:P; cbn [PF] in Pt;
+  destruct (tpc th) as [ | v | v t0 | v t0 | v t0 | v t0 | | h0 | h0 | h0 | h0 | h0 v | h0 v | vs | vs t0 i | vs t0 a | vs t0 i a | vs t0 i a | ] eqn:P; cbn [PF] in Pt;
     try (injection E as <- _ _; eapply inv3_same; [exact I3 | exact Nt | first [exact I | exact Pt | apply pf_next]]);
     try (match type of E with context [if ?c then _ else _] => destruct c eqn:C end; injection E as <- _ _;
          (eapply inv3_same; [exact I3 | exact Nt | first [exact I | apply pf_next]])).
@@ -1652,3 +1717,14 @@ Qed.
 Lemma mpmc_per_thread_pop_order n progs s l1 e1 l2 e2 l3 : 2 <= n -> reach gstep (init n progs) s ->
   gpopped s = l1 ++ e1 :: l2 ++ e2 :: l3 -> fst e1 = fst e2 -> qpos e1 < qpos e2.
 Proof. intros Hn R. destruct (mpmc_inv3 n progs s Hn R) as [_ [_ S]]. apply S. Qed.
+
+(* ================= the payload is dead before the sequence store that hands the slot back ================= *)
+Lemma mpmc_payload_dead_before_release n progs s t th h0 v : 2 <= n -> reach gstep (init n progs) s ->
+  nth_error (threads s) t = Some th -> tpc th = PPopStoreSeq h0 v ->
+  ph (slots s (h0 mod N s)) = Taken t /\ is_live (lget (led s) (h0 mod N s)) = false.
+Proof.
+  intros Hn R Nt P. destruct (mpmc_inv2 n progs s Hn R) as [[Gs Ls] _].
+  pose proof (Ls t th Nt) as L. rewrite P in L. cbn in L. destruct L as (B0 & Pj & Cj & _).
+  destruct Gs as (Hn' & _ & _ & _ & Hsl & _). destruct (Hsl _ (mod_idx (N s) h0 Hn')) as (_ & _ & Hp).
+  rewrite Pj in Hp. split; [exact Pj | tauto].
+Qed.
